@@ -73,6 +73,39 @@ func verifNodes(root any) []verifNode {
 
 const verifNMutOps = 9
 
+// verifForeignNamespace reports whether a description names a namespace other than the scope's own. References into
+// such a namespace stay unlinked until the receiver applies it (documented; ValidateReferences reports them), so only
+// then may an accepted schema have unlinked references.
+func verifForeignNamespace(v any) bool {
+	switch x := v.(type) {
+	case map[string]any:
+		for k, e := range x {
+			if k == "namespace" && e != nil && e != "" {
+				return true // any non-empty value: numbers and booleans are converted to strings by the meta-schema
+			}
+			if verifForeignNamespace(e) {
+				return true
+			}
+		}
+	case map[any]any:
+		for k, e := range x {
+			if k == "namespace" && e != nil && e != "" {
+				return true // any non-empty value: numbers and booleans are converted to strings by the meta-schema
+			}
+			if verifForeignNamespace(e) {
+				return true
+			}
+		}
+	case []any:
+		for _, e := range x {
+			if verifForeignNamespace(e) {
+				return true
+			}
+		}
+	}
+	return false
+}
+
 func verifApplyMutation(n verifNode, op int) {
 	var repl any
 	switch op {
@@ -208,7 +241,12 @@ func VerifC10_MutatedScope() {
 	s, uerr := UnserializeScope(tree)
 	// "fully usable" is promised for schemas whose references are all linked; a reference into a namespace that
 	// the receiver never applies is reported by ValidateReferences (documented contract) and is not exercised
-	if uerr == nil && s != nil && s.ValidateReferences() == nil {
+	foreign := verifForeignNamespace(tree)
+	if uerr == nil && s != nil && !foreign {
+		// every reference is in the scope's own namespace: an accepted description is fully linked
+		verifAssert("C10/scope/accepted-means-linked", s.ValidateReferences() == nil)
+	}
+	if uerr == nil && s != nil && (!foreign || s.ValidateReferences() == nil) {
 		verifCover("C10/scope/accepted")
 		verifExerciseScope(s)
 	} else {
@@ -251,14 +289,18 @@ func VerifC10_MutatedPluginSchema() {
 	verifReach("C10/plugin/mutated")
 	s, uerr := UnserializeSchema(tree)
 	linked := true
+	foreign := verifForeignNamespace(tree)
 	if uerr == nil && s != nil {
 		for _, st := range s.StepsValue {
 			if st != nil && st.InputValue != nil && st.InputValue.ValidateReferences() != nil {
 				linked = false
 			}
 		}
+		if !foreign {
+			verifAssert("C10/plugin/accepted-means-linked", linked)
+		}
 	}
-	if uerr == nil && s != nil && linked {
+	if uerr == nil && s != nil && (linked || !foreign) {
 		verifCover("C10/plugin/accepted")
 		for _, st := range s.StepsValue {
 			if st == nil {
@@ -272,12 +314,12 @@ func VerifC10_MutatedPluginSchema() {
 				}
 			}
 			for _, o := range st.OutputsValue {
-				if o != nil && o.SchemaValue != nil && o.ValidateReferences() == nil {
+				if o != nil && o.SchemaValue != nil && (!foreign || o.ValidateReferences() == nil) {
 					_, _ = o.Unserialize(map[string]any{"v": int64(1)})
 				}
 			}
 			for _, sg := range st.SignalHandlersValue {
-				if sg != nil && sg.DataSchemaValue != nil && sg.DataSchemaValue.ValidateReferences() == nil {
+				if sg != nil && sg.DataSchemaValue != nil && (!foreign || sg.DataSchemaValue.ValidateReferences() == nil) {
 					_, _ = sg.DataSchemaValue.Unserialize(map[string]any{"v": true})
 				}
 			}
